@@ -577,9 +577,10 @@ public:
    /// Stores permutation of row indices in \p perm.
    void remove(const int nums[], int n, int* perm)
    {
-      SVSetBase<R>::remove(nums, n, perm);
-
+      // the number of rows / columns before the removal: survivors are moved from old indices up to this count
       int j = num();
+
+      SVSetBase<R>::remove(nums, n, perm);
 
       for(int i = 0; i < j; ++i)
       {
